@@ -13,3 +13,4 @@ import JugModel.Props.LoopBridge
 #print axioms Jug.WorkerBridge.worker_conforms
 #print axioms Jug.LoopBridge.loop_scans_all
 #print axioms Jug.LoopBridge.loop_fuel_sufficient
+#print axioms Jug.LoopBridge.loop_conforms
